@@ -335,7 +335,8 @@ def register_run_test(R, prop):
                effects={"outcome": "'ok' if raised is None else raised"},
                note="E2: the Hypothesis-wrapped test either returns or re-raises what the body raised: a failure (group), UnexpectedError after recording the error "
                     "(cached_test_func contract), Flaky variants, Unsatisfiable, KeyboardInterrupt, skip, or any other exception")
-    R.contract(UEX + "setup_hypothesis_database_key", args={"test": Opq("Any"), "operation": Opq("Any")}, returns=NoneT, trusted=True, note="sets a Hypothesis digest attribute")
+    R.contract(UEX + "setup_hypothesis_database_key", args={"test": Opq("Any"), "operation": Opq("Any")}, returns=NoneT, raises=["TypeError"], trusted=True,
+               note="sets a Hypothesis digest attribute; json.dumps of a parameter schema can fail (a fault inside the worker: it must end as ScenarioFinished(ERROR), not kill the worker)")
     M = "schemathesis.core.marks:Mark."
     R.contract(M + "is_set", args={"self": Opq("Any"), "func": Opq("Any")}, returns=Bool, trusted=True, effects={"marks": "ghost('marks') + (1 if result else 0)"},
                note="whether add_examples left a mark on the test (C17)")
